@@ -156,6 +156,48 @@ def interrupted_writes(ctx, ld):
                                             b, c, len(calls), lens, len(left), len(full), str(lo[1])[:80]), case, cls="C12-torn-accepted")
 
 
+def reload_history(ctx):
+    """a process that has loaded the COMPLETE file before and still holds what that load returned (row-id arrays backed by the
+    file's mapping), closes it, and then opens a torn copy - which gets the same descriptor number: every strict prefix must
+    still be rejected.  What an earlier load left behind (a cache of mappings, of sizes, of parsed headers) must not stand in
+    for the bytes of the file at hand."""
+    import os
+    import tempfile
+    import numpy as np
+    from catii.indxio import IndxIO
+    for lens in ([3, 2, 4], [40, 1]):
+        ents = [[[q + 1], list(range(2, 2 + 3 * L, 3))] for q, L in enumerate(lens)]
+        full = X.spec_encode(ents, 0)
+        with tempfile.TemporaryDirectory(prefix="catii-indx-") as td:
+            p1, p2 = os.path.join(td, "complete.indx"), os.path.join(td, "torn.indx")
+            open(p1, "wb").write(full)
+            f1 = open(p1, "rb")
+            try:
+                kept = IndxIO.load(f1)          # held for the rest of the history
+            except Exception as e:
+                f1.close()
+                ctx.oracle_fail("load of a documented-layout file raised %s" % type(e).__name__, {"reload_history": lens}, cls="C12-complete-rejected")
+                continue
+            fd1 = f1.fileno()
+            f1.close()
+            for k in range(len(full)):
+                case = {"reload_history": lens, "cut": k, "file_len": len(full)}
+                ctx.case(case, nontrivial=k >= 16)
+                ctx.evaluations += 1
+                open(p2, "wb").write(full[:k])
+                with open(p2, "rb") as f2:
+                    if f2.fileno() == fd1:
+                        ctx.hit("reload_history:same_descriptor")
+                    try:
+                        got = IndxIO.load(f2)
+                    except Exception:
+                        continue
+                ctx.oracle_fail("after the complete file had been loaded (its entries still held) and closed, load of a copy cut at byte %d "
+                                "of %d returned %d entries" % (k, len(full), len(got[0])), case, cls="C12-torn-accepted")
+                break
+            del kept
+
+
 def run(ctx):
     core.load_catii()
     ld = X.Loader()
@@ -240,6 +282,7 @@ def run(ctx):
         ctx.exhaustive.append("every cut point of %d files as BytesIO / BufferedReader / unbuffered file objects" % n_obj)
         interrupted_saves(ctx, ld)
         interrupted_writes(ctx, ld)
+        reload_history(ctx)
         if ctx.oracle_only:
             return
         for (case, res), m in zip(pend, ctx.model.run(reqs)):
@@ -264,6 +307,10 @@ def replay(ctx, rep):
             return ld.load(b[:c["cut"]])[0] != "ok"
         finally:
             ld.close()
+    if "reload_history" in c:
+        n0 = len(ctx.oracle_failures)
+        reload_history(ctx)
+        return len(ctx.oracle_failures) == n0
     if "interrupted_write" in c:
         n0 = len(ctx.oracle_failures)
         interrupted_writes(ctx, ld)
